@@ -122,6 +122,15 @@ func (g *Gen) genMappingIdentityHistory() {
 		q.fromAlpha = false
 		ms = append(ms, q)
 	}
+	// the other kinds with exactly the same base and offset (as a decoder could rebuild them): never equal
+	for _, k := range []string{"log", "linear", "cubic"} {
+		if k != base.kind {
+			q := base
+			q.kind = k
+			q.fromAlpha = false
+			ms = append(ms, q)
+		}
+	}
 	if base.fromAlpha && base.alpha+0.0015 < 0.99 {
 		if m2, err := mappingFromAlpha(base.kind, base.alpha+0.0015); err == nil {
 			pb := m2.ToProto()
